@@ -317,6 +317,13 @@ func (s *SimStream) Write(p []byte) (int, error) {
 		return 0, io.ErrClosedPipe
 	}
 }
+// WrittenCopy returns a copy of everything written on this end so far.
+func (s *SimStream) WrittenCopy() []byte {
+	s.mu.Lock()
+	defer s.mu.Unlock()
+	return append([]byte{}, s.Written...)
+}
+
 func (s *SimStream) Close() error {
 	already := true
 	s.once.Do(func() {
